@@ -133,7 +133,8 @@ def h_inner(t, part):
             continue
         elif op == 'enter room':
             if w.s.manager.is_connected(live[cur], cur):
-                w.call(w.s.enter_room(live[cur], 'room%d' % step, namespace=cur))
+                # room names are the application's: numeric ids and empty strings are names like any other
+                w.call(w.s.enter_room(live[cur], [0, '', 'room%d' % step][t.choice(3)], namespace=cur))
         elif op == 'event':
             w.send('e0', w.P(packet.EVENT, data=['ev', 1], namespace=cur))
         elif op == 'event+ack':
